@@ -120,7 +120,7 @@ def Outcome.effects : Outcome → List Effect
   | .panic fx => fx
 
 theorem stopped_frame (s : State) : Frame s { s with stopped := true } :=
-  ⟨fun _ => ⟨rfl, rfl⟩, rfl, rfl, rfl, rfl, rfl, id, fun _ => rfl, fun _ _ => rfl, BlkInv.same rfl rfl rfl rfl⟩
+  ⟨fun _ => ⟨rfl, rfl⟩, rfl, rfl, rfl, rfl, rfl, id, fun _ => rfl, fun _ _ => rfl, BlkInv.same rfl rfl rfl rfl rfl rfl⟩
 
 theorem toOutcome_state (body : Bytes) (o : HOut) (s' : State) (h : (toOutcome body o).state = some s') :
     s' = o.st ∨ s' = { o.st with stopped := true } := by
